@@ -268,6 +268,19 @@ pub fn j_range_fmt(fam: usize, v: [i64; 6], out: &mut Local) {
             };
             (f.to_string(), text, j != leap_doy, false, "second-60-allowed-by-an-unused-date")
         }
+        10 => {
+            // v = [format, first day of year, second day of year]: a day of year given twice - the first value must be in
+            // range too (2021 has 365 days)
+            let (a, b) = (v[1], v[2]);
+            let (f, text) = match v[0] {
+                0 => ("%Y %j %j", format!("2021 {a:03} {b:03}")),
+                1 => ("%j %Y %j", format!("{a:03} 2021 {b:03}")),
+                2 => ("%Y %j %J", format!("2021 {a:03} {b:03}")),
+                _ => ("%Y %J %j", format!("2021 {a:03} {b:03}")),
+            };
+            let inv = a < 1 || a > 365 || b < 1 || b > 365;
+            (f.to_string(), text, inv, false, "day-of-year-given-twice")
+        }
         _ => {
             // v = [year, day of year, hour, minute, second]: ordinal date with a time of day (27 April / 31 December are
             // not leap-second days in these years)
@@ -286,7 +299,7 @@ pub fn j_range_fmt(fam: usize, v: [i64; 6], out: &mut Local) {
             None => false,
         }
     });
-    let fam_name = ["rfc3339-with-trailing-character", "custom-format-with-trailing-character", "custom-format-with-trailing-character", "rfc3339-offset", "ordinal", "fractional-ordinal", "ordinal-with-time", "sign-in-front-of-a-field", "field-given-twice-or-overridden", "ordinal-with-unused-date"][fam.min(9)];
+    let fam_name = ["rfc3339-with-trailing-character", "custom-format-with-trailing-character", "custom-format-with-trailing-character", "rfc3339-offset", "ordinal", "fractional-ordinal", "ordinal-with-time", "sign-in-front-of-a-field", "field-given-twice-or-overridden", "ordinal-with-unused-date", "field-given-twice-or-overridden"][fam.min(10)];
     match r {
         Ok(acc) => {
             if invalid && acc {
@@ -682,6 +695,13 @@ pub fn run(rep: &mut Report) {
     for f in 0..4i64 {
         for j in [1i64, 2, 100, 181, 182, 183, 365, 366] {
             rf.push((9, [f, j, 0, 0, 0, 0]));
+        }
+    }
+    for f in 0..4i64 {
+        for a in [0i64, 1, 2, 365, 366, 400, 999] {
+            for b in [1i64, 365, 366] {
+                rf.push((10, [f, a, b, 0, 0, 0]));
+            }
         }
     }
     rep.bound("range_through_format_parse", rf.len() as u64);
